@@ -42,7 +42,7 @@ class QUICOutputbuilder:
             elif data is None:
                 continue
 
-            if frame.src_packet.packet_num == pn:
+            if frame.src_packet.packet_num == pn and frame.src_packet.ts == ts:
                 packets.extend(data)
                 continue
             else:  # if packets number changes
